@@ -202,6 +202,20 @@ func (e *enc) tr(x Expr, env *Env) Val {
 		}
 		return Val{T: "(str.substr " + v.T + " " + lo + " (- " + hi + " " + lo + "))", S: "String"}
 	case *EField:
+		if id, ok := n.X.(*EIdent); ok {
+			full := id.Name + "." + n.Name
+			_, isBound := env.bound[id.Name]
+			_, isVar := env.vars[id.Name]
+			if !isBound && !isVar {
+				if g, ok := e.v.ct.Ghosts[full]; ok && len(g.Idx) == 0 {
+					e.regGhost(g)
+					return Val{T: e.getIn(env.cur, g.Name), S: sortFromName(g.Val)}
+				}
+				if sf, ok := e.v.ct.Specs[full]; ok && len(sf.Params) == 0 {
+					return e.specApp(sf, nil, env)
+				}
+			}
+		}
 		v := e.tr(n.X, env)
 		return e.trField(v, n.Name, env)
 	case *EQuant:
@@ -527,6 +541,48 @@ func (e *enc) trCall(n *ECall, env *Env) Val {
 	case "replaceFirst":
 		a := e.trArgs(n.Args, env)
 		return Val{T: "(str.replace " + a[0].T + " " + a[1].T + " " + a[2].T + ")", S: "String"}
+	case "as":
+		// as(x, "*pkg.Type"): view a reference under a Go type (needed for field access on bound variables)
+		v := e.tr(n.Args[0], env)
+		if st, ok := n.Args[1].(*EStr); ok {
+			t := e.v.lookupType(st.V)
+			if t == nil {
+				e.trFail("unknown type %q", st.V)
+			}
+			v.GT = t
+			return v
+		}
+		e.trFail("as() needs a type name")
+	case "rng.pos", "rng.len", "rng.key", "rng.idx":
+		k, ok := n.Args[0].(*EInt)
+		if !ok {
+			e.trFail("%s: first argument must be the range ordinal", n.Fn)
+		}
+		var ord int
+		fmt.Sscan(k.V, &ord)
+		rg := e.rangeByOrdinal(ord)
+		if rg == nil || e.rangeInfo[rg] == nil {
+			e.trFail("no range #%d over a map here", ord)
+		}
+		ri := e.rangeInfo[rg]
+		mt := rg.X.Type().Underlying().(*types.Map)
+		switch n.Fn {
+		case "rng.pos":
+			return Val{T: e.getIn(env.cur, e.iters[rg]), S: "Int"}
+		case "rng.len":
+			return Val{T: ri.n, S: "Int"}
+		case "rng.key":
+			j := e.tr(n.Args[1], env)
+			return Val{T: "(" + ri.seq + " " + j.T + ")", S: e.te.SortOf(mt.Key()), GT: mt.Key()}
+		default:
+			kk := e.tr(n.Args[1], env)
+			return Val{T: "(" + ri.idx + " " + kk.T + ")", S: "Int"}
+		}
+	case "addr.rwMu":
+		// identity of the mutex field of an LRUCache (field 0)
+		v := e.tr(n.Args[0], env)
+		e.declFun("fieldloc", []Sort{"Int", "Int"}, "Int")
+		return Val{T: "(fieldloc " + v.T + " 0)", S: "Int"}
 	case "itag":
 		v := e.tr(n.Args[0], env)
 		return Val{T: "(i-tag " + v.T + ")", S: "Int"}
@@ -572,6 +628,24 @@ func (e *enc) trCall(n *ECall, env *Env) Val {
 		e.regState("frontier", "Int")
 		v := e.tr(n.Args[0], env)
 		return Val{T: "(< " + v.T + " " + e.getIn(env.cur, "frontier") + ")", S: "Bool"}
+	}
+	// state-dependent predicate macro
+	if pd, ok := e.v.ct.Preds[n.Fn]; ok {
+		args := e.trArgs(n.Args, env)
+		if len(args) != len(pd.Params) {
+			e.trFail("pred %s expects %d arguments", pd.Name, len(pd.Params))
+		}
+		env2 := env
+		for i, p := range pd.Params {
+			a := args[i]
+			if p[1] != "" {
+				if t := e.v.lookupType(p[1]); t != nil {
+					a.GT = t
+				}
+			}
+			env2 = env2.bind(p[0], a)
+		}
+		return e.tr(pd.Body, env2)
 	}
 	// ghost state read
 	if g, ok := e.v.ct.Ghosts[n.Fn]; ok {
